@@ -111,9 +111,9 @@ func (c ConditionFunction) Evaluate(a interface{}, b interface{}) (bool, error) 
 	}
 	switch c {
 	case ConditionEqual:
-		return reflect.DeepEqual(a, b), nil
+		return valuesEqual(x, y), nil
 	case ConditionNotEqual:
-		return !reflect.DeepEqual(a, b), nil
+		return !valuesEqual(x, y), nil
 	case ConditionIncludes:
 		switch x.Kind() {
 		case reflect.Slice:
@@ -128,9 +128,9 @@ func (c ConditionFunction) Evaluate(a interface{}, b interface{}) (bool, error) 
 	case ConditionExcludes:
 		switch x.Kind() {
 		case reflect.Slice:
-			return !sliceContains(x, y), nil
+			return !sliceContainsAny(x, y), nil
 		case reflect.Map:
-			return !mapContains(x, y), nil
+			return !mapContainsAny(x, y), nil
 		case reflect.Int, reflect.Float64, reflect.Bool, reflect.String:
 			return !reflect.DeepEqual(a, b), nil
 		default:
@@ -181,6 +181,56 @@ func (c ConditionFunction) Evaluate(a interface{}, b interface{}) (bool, error) 
 	}
 	// we should never get here
 	return false, fmt.Errorf("unreachable condition")
+}
+
+// valuesEqual compares two native values the way RFC7047 compares column
+// values: sets regardless of the order of their elements, an unset set, map or
+// optional value being equal to an empty one
+func valuesEqual(x, y reflect.Value) bool {
+	switch x.Kind() {
+	case reflect.Slice:
+		return x.Len() == y.Len() && sliceContains(x, y) && sliceContains(y, x)
+	case reflect.Map:
+		return x.Len() == y.Len() && mapContains(x, y)
+	case reflect.Ptr:
+		if x.IsNil() || y.IsNil() {
+			return x.IsNil() && y.IsNil()
+		}
+		return reflect.DeepEqual(x.Elem().Interface(), y.Elem().Interface())
+	default:
+		return reflect.DeepEqual(x.Interface(), y.Interface())
+	}
+}
+
+// sliceContainsAny returns whether x contains at least one of the elements of y
+func sliceContainsAny(x, y reflect.Value) bool {
+	for i := 0; i < y.Len(); i++ {
+		if sliceContains(x, y.Slice(i, i+1)) {
+			return true
+		}
+	}
+	return false
+}
+
+// mapContainsAny returns whether x contains at least one of the key-value
+// pairs of y
+func mapContainsAny(x, y reflect.Value) bool {
+	iter := y.MapRange()
+	for iter.Next() {
+		vx := x.MapIndex(iter.Key())
+		if !vx.IsValid() {
+			continue
+		}
+		v := iter.Value()
+		if v.Kind() == reflect.Interface {
+			if v.Elem() == vx.Elem() {
+				return true
+			}
+		} else if v.Interface() == vx.Interface() {
+			return true
+		}
+	}
+	return false
 }
 
 func sliceContains(x, y reflect.Value) bool {
